@@ -29,9 +29,38 @@ def dist_equal(a: dict, b: dict, tol=1e-12) -> bool:
     return all(abs(a[k] - b[k]) <= tol for k in a)
 
 
+SETTINGS = {
+    "sam": ("circuit", "input_state", "source", "detector", "backend"),
+    "qs": ("circuit", "input_state", "post_select", "photon_counting"),
+    "an": ("circuit", "post_selection"),
+}
+
+
+def settings_of(kind, s) -> list:
+    out = []
+    for a in SETTINGS[kind]:
+        try:
+            v = getattr(s, a)
+        except Exception as e:  # noqa: BLE001
+            v = ("exc", type(e).__name__)
+        if a == "input_state" and not isinstance(v, tuple):
+            out.append((a, "value", tuple(v.s)))
+        elif a == "photon_counting":
+            out.append((a, "value", v))
+        else:
+            out.append((a, "id", id(v)))
+    return out
+
+
 class FreshMonitor(Monitor):
     prop = "C11"
     name = "fresh"
+
+    def pre(self, op, snap):
+        self._settings = None
+        w = self.w
+        if op["op"] == "cons_set" and w.has(op.get("kind"), op.get("s")):
+            self._settings = settings_of(op["kind"], w.pool[op["kind"]][op["s"]])
 
     def fresh(self, kind, s):
         if kind == "sam":
@@ -47,9 +76,21 @@ class FreshMonitor(Monitor):
 
     def post(self, op, out, before, after):
         k = op["op"]
+        w = self.w
+        if k == "cons_set" and out["status"] == "raised" and \
+                self._settings is not None and w.has(op["kind"], op["s"]):
+            w.probe("rejected_reconfiguration_checked")
+            now = settings_of(op["kind"], w.pool[op["kind"]][op["s"]])
+            if now != self._settings:
+                changed = [a[0] for a, b in zip(self._settings, now) if a != b]
+                return [self.v({"kind": "rejected_reconfiguration_took_effect",
+                                "consumer": op["kind"], "attr": op.get("attr")},
+                               f"{op['kind']}:{op['s']}: assignment of "
+                               f"{op.get('attr')} raised {out['exc']} but "
+                               f"{changed} changed")]
+            return []
         if k not in READ_OPS:
             return []
-        w = self.w
         kind = op.get("kind", "sam")
         if k == "quick_n_outputs":
             kind = "qs"
